@@ -20,10 +20,14 @@ _PID = "-%d" % os.getpid()
 # worlds: structured description -> CSV text for the real MessageMap  +  JSON for the P monitor
 # (only syntax is rendered here; what "<3" or "2-4" *means* is defined in ConditionP.tla)
 
-def _item(txt):
+def _item(txt, strlist=False):
     t = txt.strip()
     if t.startswith("'"):
         return {"op": "str", "a": 0, "b": 0, "s": [ord(c) for c in t.strip("'")]}
+    if strlist:
+        # an unquoted item of a string list (the list starts with a quote): what it means is not documented; P gets its literal
+        # text and the world's stored alphabet never contains a value that any reading of it could equal, so P stays agnostic
+        return {"op": "str", "a": 0, "b": 0, "s": [ord(c) for c in t]}
     for pre, op in (("<=", "le"), (">=", "ge"), ("<", "lt"), (">", "gt")):
         if t.startswith(pre):
             return {"op": op, "a": int(t[len(pre):]), "b": 0, "s": []}
@@ -73,7 +77,7 @@ class W:
     def cond(self, cname, refidx, values, field="", kind=None, file=1):
         """file = 2: the condition is defined in a second definition file (same names may be used in both files)"""
         r = self.refs[refidx - 1]
-        items = [_item(x) for x in values.split(";")] if values else []
+        items = [_item(x, values.startswith("'")) for x in values.split(";")] if values else []
         k = kind or ("seen" if not items else "str" if items[0]["op"] == "str" else "num")
         if r["typ"] == "S":
             self.lines.insert(0, "*[%s],,,,%s,08,%s" % (cname, field, values))
@@ -171,6 +175,9 @@ def worlds(thorough):
         _simple("seen", "", [0, 1]),
         _simple("strset", "'ab';'cd'", ["ab", "cd", "ac", "xy"], fields=[("", "str", "STR:2")]),
         _simple("strnamed", "'ab'", ["ab", "a ", "ba"], field="s", fields=[("s", "str", "STR:2")]),
+        # mixed quoting: the quoted items keep their documented meaning whatever stands beside them (seed C13f)
+        _simple("strmixlast", "'ab';zz", ["ab", "xy", "a "], fields=[("", "str", "STR:2")]),
+        _simple("strmixmid", "'ab';zz;'cd'", ["ab", "cd", "xy"], fields=[("", "str", "STR:2")]),
         _simple("mixed", "0;2-3;>=5", [0, 1, 2, 3, 4, 5, 6]),
         _simple("passive", "1;3", [0, 1, 3], typ="P"),
     ]
